@@ -80,6 +80,10 @@ CLAIMED.update({
            "function-name strippers are anchored; keyword lists contain none of the characters every hostile value needs; the lookup falls back to reject-all. Partial: the composition of these blocks by the handlers' control flow is covered by the bounded-exhaustive search the property text describes (all 213 entries, hostile fragments at every position).",
            "DESIGN.md section 5 C18", "The translator classifies regexps by use (MatchString vs ReplaceAll/FindString) and recognises the GetDefaultHandler/BaseHandler shapes; the hostile language in Spec/CssInert.v is my reading of the property text. ",
            "Coq proof by reflection (verified regexp emptiness procedure) on translator-regenerated CSS regexps and keyword lists + bounded-exhaustive hostile-fragment search over all default handlers"),
+ "C04": _c("proof", "Theorems C04_strict_text_only / C04_ugc_tags / C04_ugc_tables over the model's build of the builder scripts regenerated from policies.go and helpers.go: StrictPolicy emits only escaped text; every tag UGCPolicy emits is in the documented vocabulary and not a forbidden element; "
+           "the tables (attribute names per element, global attributes, schemes exactly mailto/http/https, nofollow, no styles/data attributes/comments/rewriter) equal the documented ones, for every token list. Partial: the DOM clause and whole-document pass-through are exercised by the oracle (ParseFragment in ten containers).",
+           "DESIGN.md section 4 C04", TIE_NOTE + "The UGC vocabulary in Spec/UGCSpec.v is my reading of policies.go's comments. ",
+           "Coq proof over translator-regenerated builder scripts (instance facts by computation) + policy-table correspondence of the shipped constructors + re-parse oracle"),
 })
 
 NOT_YET = {}
